@@ -93,9 +93,14 @@ def check_reachability(ctx):
     return docs
 
 
+# remote file names that do not begin with their dataset's name on the pinned tree (each confirmed by reading the source)
+OWN_FILE_EXCEPTIONS = {'fetch_ams_ix_isp_monthly': "the published file is spelled 'aams-ix-isp_monthly_...' upstream"}
+
+
 def check_remote(ctx):
     ctx.rule('C18.3', 'every remote loader passes literal url / filename / 64-hex checksum, dataset_filename and dataset_folder; urls, checksums, temp '
-                      'file names and normalised cache slots (folder, filename) are pairwise distinct; validate_checksum is not disabled; **kwargs forwarded')
+                      'file names and normalised cache slots (folder, filename) are pairwise distinct; validate_checksum is not disabled; **kwargs forwarded; '
+                      'the remote file name begins with the dataset\'s own name')
     loaders = [l for l in all_loaders(ctx).values() if l.kind == 'remote']
     ctx.floor('C18.3', len(loaders), 76, 'remote loaders')
     seen = {'url': {}, 'checksum': {}, 'slot': {}, 'temp': {}}
@@ -116,6 +121,13 @@ def check_remote(ctx):
         vc = ld.validate_checksum
         ctx.check(isinstance(vc, Const) and vc.v is True, 'C18.3', f"{nm}: checksum validation is on", show(vc, 60), ld.fi.loc(), q, f"validate:{nm}")
         ctx.check(ld.forwards_kwargs, 'C18.3', f"{nm}: forwards **kwargs to the remote loader", '', ld.fi.loc(), q, f"kwargs:{nm}")
+        # its own file: the remote file a loader names carries the dataset's name (75 of the 76 loaders; the exception is frozen below, confirmed by reading)
+        def _n(s_):
+            return re.sub(r'[-_]', '-', s_.lower().lstrip('./'))
+        own = _n(nm[len('fetch_'):]) if nm.startswith('fetch_') else None
+        if own is not None and nm not in OWN_FILE_EXCEPTIONS:
+            ctx.check(_n(ld.filename).startswith(own), 'C18.3', f"{nm}: the remote file it names is its own (the file name begins with the dataset name, "
+                                                               f"separators - / _ not distinguished)", f"names {ld.filename}", ld.fi.loc(), q, f"own-file:{nm}")
         slot = (posixpath.normpath(ld.dataset_folder), posixpath.normpath(ld.dataset_filename))
         bad_slot = '..' in slot[1].split('/') or slot[1].startswith('/') or slot[1] in ('', '.')
         ctx.check(not bad_slot, 'C18.3', f"{nm}: cache slot stays inside its folder", str(slot), ld.fi.loc(), q, f"slotpath:{nm}")
